@@ -620,7 +620,11 @@ loopX0:    \
     CMPQ len, $0   \
     JLE cryptoBlocksDone     \
     fillCounterX1()   \
-    cryptoBlockAsmRemain(rk,tmp,src,reg3,reg1,reg2,reg3,blockCount)  \
+    MOVQ len, reg2 \
+    copyAsm(tmp,src,len,reg3) \   //only len bytes of input remain: bring them into the scratch block
+    SUBQ reg2, tmp \
+    MOVQ reg2, len \
+    cryptoBlockAsmRemain(rk,tmp,tmp,reg3,reg1,reg2,reg3,blockCount)  \
     clearRight(tmp,len,reg3,reg2) \
     MOVQ len, reg2 \
     copyAsm(dst,tmp,len,reg3)  \
